@@ -20,7 +20,12 @@ def string_to_complex(array: np.array, state: dict) -> np.ndarray:
     if _OLD_NUMPY:
         return np.array([complex(v) for v in array])
     else:
-        return array.astype(complex)
+        # only the values are parsed: astype(complex) raises on None / pd.NA / NaT
+        # among the strings
+        mask = nan_mask(array)
+        result = np.full(array.shape, np.nan, dtype=complex)
+        result[mask] = array[mask].astype(complex)
+        return result
 
 
 @Complex.register_relationship(String, np.ndarray)
